@@ -55,7 +55,7 @@ func VerifC16Seq() {
 	n := verifChoice("n", maxn+1)
 	seq := vSeq()
 	for i := 0; i < n; i++ {
-		seq.Content = append(seq.Content, vInt(verifStrN("e"+verifItoa(int64(i)), 1, "03")))
+		seq.Content = append(seq.Content, vInt(verifStrN("e"+verifItoa(int64(i)), 1, vDigits())))
 	}
 	doc := vDoc(vMap(vStr("a"), seq))
 	p := verifChoice("producer", len(c16SeqProducers))
@@ -118,8 +118,8 @@ func VerifC16Seq() {
 	verifCover("C16/seq/end")
 }
 
-var c16MapProducers = []string{".", "sort_keys(.)", "with_entries(.)", "pick([\"KEYA\"])", "omit([\"KEYA\"])", ". * {}", "to_entries | from_entries", "map_values(.)", ". + {}"}
-var c16MapProducerNames = []string{"fresh", "sort_keys", "with_entries", "pick", "omit", "merge", "entries-roundtrip", "map_values", "add"}
+var c16MapProducers = []string{".", "sort_keys(.)", "with_entries(.)", "pick([\"KEYA\"])", "omit([\"KEYA\"])", ". * {}", "to_entries | from_entries", "map_values(.)", ". + {}", ". + {\"KEYA\": 9}", ". * {\"KEYA\": 9}", "{\"KEYA\": 9} + .", ". + {\"KEYA\": {\"z\": 9}}"}
+var c16MapProducerNames = []string{"fresh", "sort_keys", "with_entries", "pick", "omit", "merge", "entries-roundtrip", "map_values", "add", "add-overlapping", "merge-overlapping", "add-to-literal", "add-overlapping-map"}
 
 // VerifC16Map: same for (derived) maps with symbolic keys.
 func VerifC16Map() {
@@ -133,13 +133,13 @@ func VerifC16Map() {
 			verifAssume(!verifEqStr(prev, k))
 		}
 		keys = append(keys, k)
-		m.Content = append(m.Content, vStr(k), vInt(verifStrN("v"+verifItoa(int64(i)), 1, "03")))
+		m.Content = append(m.Content, vStr(k), vInt(verifStrN("v"+verifItoa(int64(i)), 1, vDigits())))
 	}
 	doc := vDoc(vMap(vStr("a"), m))
 	p := verifChoice("producer", len(c16MapProducers))
 	label := "map producer=" + c16MapProducerNames[p]
 	exp := vParse(".a | " + c16MapProducers[p])
-	if p == 3 || p == 4 {
+	if p == 3 || p == 4 || p >= 9 {
 		vSubst(exp, "KEYA", "", verifStrN("q", 1, "ac"))
 	}
 	res, err := vEval(exp, doc)
@@ -230,7 +230,7 @@ func VerifC16CopyThenDelete() {
 	n := 3
 	seq := vSeq()
 	for i := 0; i < n; i++ {
-		seq.Content = append(seq.Content, vInt(verifStrN("e"+verifItoa(int64(i)), 1, "03")))
+		seq.Content = append(seq.Content, vInt(verifStrN("e"+verifItoa(int64(i)), 1, vDigits())))
 	}
 	doc := vDoc(vMap(vStr("a"), seq))
 	c := verifChoice("copy", len(c16Copies))
